@@ -143,7 +143,7 @@ Proof.
   repeat split; apply default_items_canon.
 Qed.
 
-Lemma route_canon title letter sec l : canon_sect sec -> canon_las l -> canon_las (route title letter sec l).
+Lemma route_canon v3 title letter sec l : canon_sect sec -> canon_las l -> canon_las (route v3 title letter sec l).
 Proof.
   intros Hs (HV & HW & HC & HP). unfold route.
   repeat (match goal with |- context [if ?b then _ else _] => destruct b end);
